@@ -149,10 +149,14 @@ def run_breeze(ip, ctx, shape, r1=("ge", 12), r2="wf", r3=None, r4=None):
     mint = sym_int(ctx, "min_temp", -100, 100)
     maxt = sym_int(ctx, "max_temp", -100, 100)
     feats = PyDict({m: PyDict({"swing": False, "fan_levels": PySet(), "temperature_control": False}) for m in Mode})
-    remote = Obj(cls(R + "SwitcherBreezeRemote"), {
-        "_min_temp": mint, "_max_temp": maxt, "_on_off_type": toggle, "_remote_id": "REMOTE01", "_ir_wave_map": W,
-        "_modes_features": feats, "_separated_swing_command": sep})
-    remote.preexisting = True
+    from pyvc.sym import PyList
+    remote = ip.instantiate(cls(R + "SwitcherBreezeRemote"),
+                            [PyDict({"IRSetID": "ELEC7022" if sep else "REMOTE01", "OnOffType": 0, "IRWaveList": PyList([])})], {}, ctx)
+    remote.attrs.update({"_min_temp": mint, "_max_temp": maxt, "_on_off_type": toggle, "_ir_wave_map": W,
+                         "_modes_features": feats, "_separated_swing_command": sep})
+    from pyvc.interp import mark_preexisting
+    mark_preexisting(remote)
+    ctx.ghost.heap_writes.clear()
     R1 = reply(ctx, "R1", r1)
     R2 = wf_state_reply(ip, ctx) if r2 == "wf" else reply(ctx, "R2", r2)
 
